@@ -96,7 +96,7 @@ def field_names(n: int, scheme: str, ph: list[str]) -> list[str]:
     return [ph[(i + 1) % n] for i in range(n)]
 
 
-def patched(repo: Repo, gen: str, code: _types.CodeType, n: int, union_or_struct_init: bool, names: list[str] | None = None):
+def patched(repo: Repo, gen: str, code: _types.CodeType, n: int, union_or_struct_init: bool, names: list[str] | None = None, shared_type: bool = False):
     """Symbolically evaluate the _generate_* patcher over the template's code object. -> (CodeSym, field symbols)"""
     st = repo.module("types/structure.py")
     fi = repo.func("types/structure.py", gen)
@@ -121,7 +121,13 @@ def patched(repo: Repo, gen: str, code: _types.CodeType, n: int, union_or_struct
         env[mk] = Host(lambda k, _c=base: func_sym(_c) if k == n else (_ for _ in ()).throw(Refused(f"template requested for {k} fields, structure has {n}")))
     if union_or_struct_init:
         nm = names or [f"F{i}" for i in range(n)]
-        fields = [Sym(f"field{i}", attrs={"_name": nm[i], "name": nm[i], "type": Sym(f"type{i}", methods={"__default__": (lambda i=i: Sym(f"D{i}"))})}) for i in range(n)]
+        if shared_type:
+            # all fields are of ONE type object whose __default__() hands out a new object per call (as a mutable default must be)
+            counter = iter(range(10 ** 6))
+            one = Sym("the-type", methods={"__default__": (lambda: Sym(f"DS#{next(counter)}"))})
+            fields = [Sym(f"field{i}", attrs={"_name": nm[i], "name": nm[i], "type": one}) for i in range(n)]
+        else:
+            fields = [Sym(f"field{i}", attrs={"_name": nm[i], "name": nm[i], "type": Sym(f"type{i}", methods={"__default__": (lambda i=i: Sym(f"D{i}"))})}) for i in range(n)]
     else:
         fields = list(names or [f"F{i}" for i in range(n)])
     try:
@@ -224,12 +230,14 @@ def _check_template_ast(kind: str, fn: ast.FunctionDef, ph: list[str]) -> str | 
     return "unknown kind"
 
 
-def layout_rule(repo: Repo, rep: Report, R1: str, R2: str, max_n: int) -> None:
+def layout_rule(repo: Repo, rep: Report, R1: str, R2: str, max_n: int, skip: set[str] = frozenset()) -> None:
     rep.rule(R1, "template <-> patcher layout for every field count n: the patched co_names / co_consts / co_varnames equal the compiled template's "
                  "with placeholder i replaced by field i (and default i), and nothing else carries a placeholder")
     rep.rule(R2, "field completeness of every instantiated template: each placeholder is read from self (and other) / stored on self from the "
                  "like-named argument with default index i, in field order; __eq__ compares classes with 'is' first")
     for kind, (mk, gen) in KINDS.items():
+        if gen in skip:
+            continue  # already reported by the cache rule: the generator does not install the patched template
         first_bad_layout = None
         first_bad_ast = None
         ok_count = 0
@@ -284,6 +292,29 @@ def _fmt(t: tuple, where: int) -> str:
     lo = max(0, where - 1)
     part = ", ".join(repr(x) for x in t[lo:where + 3])
     return f"(…{part}…)[len {len(t)}]"
+
+
+def per_field_default_rule(repo: Repo, rep: Report, rid: str) -> None:
+    rep.rule(rid, "one default object per field: the __init__ patchers, interpreted for 2..4 fields that all have the same type object, embed as many "
+                  "distinct default objects as there are fields (a default cached per type would make a.x and b.x the same object, so assigning through "
+                  "one field changes another)")
+    for kind in ("init", "uinit"):
+        mk, gen = KINDS[kind]
+        fi = repo.func("types/structure.py", gen)
+        bad = None
+        for n in (2, 3, 4):
+            ph = placeholders(repo, n)
+            _src, code, _fn = instantiate(repo, mk, ph)
+            if code is None:
+                continue
+            got = patched(repo, gen, code, n, True, [f"F{i}" for i in range(n)], shared_type=True)
+            ds = [c for c in got.co_consts if isinstance(c, Sym) and c.label.startswith("DS#")]
+            if len({c.label for c in ds}) != n:
+                bad = (n, [c.label for c in ds])
+                break
+        rep.check(bad is None, rid, f"{fi.key}:per-field", "n fields of one type get n distinct default objects",
+                  f"{gen}: {bad[0] if bad else ''} fields of the same type receive the default objects {bad[1] if bad else ''}: members of the same nested "
+                  "structure / typedef'd array type share one default object, so assigning through one member also changes the other", fi.loc())
 
 
 def one_list_rule(repo: Repo, rep: Report, rid: str) -> None:
@@ -358,6 +389,15 @@ def cache_rule(repo: Repo, rep: Report, rid: str) -> None:
         code_arg = resolve_local(fi.node, news[0].args[0]) if len(news) == 1 and news[0].args else None
         rep.check(len(news) == 1 and isinstance(code_arg, ast.Call) and call_name(code_arg) == "replace", rid, f"{fi.key}:new-function",
                   "returns a new function built from code.replace(...)", f"{qn} does not build a new function from a replaced code object", fi.loc())
+    for qn in ("_generate__eq__", "_generate__bool__", "_generate__hash__"):
+        fi = repo.func("types/structure.py", qn)
+        nested = [x for x in walk_body(fi.node.body) if isinstance(x, (ast.FunctionDef, ast.AsyncFunctionDef, ast.Lambda))]
+        rets = [r for r in walk_body(fi.node.body) if isinstance(r, ast.Return)]
+        direct = bool(rets) and all(isinstance(resolve_local(fi.node, r.value), ast.Call) and call_name(resolve_local(fi.node, r.value)) == "_patch_attributes" for r in rets)
+        rep.check(not nested and direct, rid, f"{fi.key}:installs-template", "installs the patched template itself",
+                  f"{qn} no longer returns the patched template itself but wraps it ({'a nested function' if nested else 'another value'}): state kept by the "
+                  "wrapper (e.g. a cached hash that is only invalidated by assignments on the instance itself) makes equal instances hash or compare "
+                  "differently after a nested field was assigned", fi.loc(nested[0]) if nested else fi.loc())
     cgn = repo.func("types/structure.py", "_codegen")
     rets = [r for r in walk_body(cgn.node.body) if isinstance(r, ast.Return)]
     rep.check(len(rets) == 1 and isinstance(rets[0].value, ast.Call) and call_name(rets[0].value) == "lru_cache", rid, f"{cgn.key}:cache", "templates are cached per field count",
@@ -369,9 +409,11 @@ def cache_rule(repo: Repo, rep: Report, rid: str) -> None:
 
 def run(repo: Repo, rep: Report, tier: str) -> None:
     max_n = 300 if tier == "thorough" else 40
-    layout_rule(repo, rep, "C17.R1", "C17.R2", max_n)
-    one_list_rule(repo, rep, "C17.R3")
     cache_rule(repo, rep, "C17.R4")
+    wrapped = {it.construct.split(":")[1] for it in rep.items if it.rule == "C17.R4" and not it.ok and it.construct.endswith(":installs-template")}
+    layout_rule(repo, rep, "C17.R1", "C17.R2", max_n, skip=wrapped)
+    one_list_rule(repo, rep, "C17.R3")
+    per_field_default_rule(repo, rep, "C17.R6")
     from .c02 import offset_pad_rule
 
     offset_pad_rule(repo, rep, "C17.R5")
